@@ -103,7 +103,6 @@ def eval : GExp → Option (GVal Q8)
   | .frz fr g => (eval g).map (GVal.frozen fr)
   | .emb rs maps g => (eval g).map (GVal.embedded rs maps)
 
-def tab (d : Nat) (m : M Q8) : QMat := Mat.tabulate d d m
 
 /-- model of `Gate.get_inverse` / `get_inverse_params` on expressions:
 returns the inverse expression and the parameter transformation -/
@@ -114,7 +113,7 @@ def inverse (e : GExp) (v : GVal Q8) : GExp × (List (Ang Q8) → List (Ang Q8))
   | .pow n g => (.pow (-n) g, id)
   | _ =>
     -- `is_constant() and is_self_inverse()` → the gate itself, else `DaggerGate(self)`
-    if v.np = 0 && Mat.beq (tab v.dim (v.u [])) (QMat.dagger (tab v.dim (v.u []))) then (e, id)
+    if v.np = 0 && Mat.beq (v.u []) (QMat.dagger (v.u [])) then (e, id)
     else (.dag e, id)
 
 def step (line : String) : String :=
@@ -127,15 +126,15 @@ def step (line : String) : String :=
       | some v =>
         if ps.length ≠ v.np then s!"err params {v.np}" else
         match what with
-        | "u" => QMat.toString (tab v.dim (v.u ps))
-        | "g" => " ; ".intercalate ((v.g ps).map fun m => QMat.toString (tab v.dim m))
+        | "u" => QMat.toString (v.u ps)
+        | "g" => " ; ".intercalate ((v.g ps).map QMat.toString)
         | "shape" => s!"{v.np} : {showList v.radixes}"
         | "inv" =>
           let (e', f) := inverse e v
           match eval e' with
-          | some v' => QMat.toString (tab v'.dim (v'.u (f ps)))
+          | some v' => QMat.toString (v'.u (f ps))
           | none => "err unmodelled-inverse"
-        | "unitary?" => toString (QMat.isUnitary (tab v.dim (v.u ps)))
+        | "unitary?" => toString (QMat.isUnitary (v.u ps))
         | _ => "bad-op"
     | _, _ => "err parse"
   | _ => "bad-op"
